@@ -29,7 +29,8 @@ Definition sb_cur_facts : sb_facts := Eval vm_compute in
      sbf_frame_inherit := f_sb_frame_inherit;
      sbf_userfunc_unsafe := f_sb_userfunc_unsafe && f_sb_function_default_unsafe;
      sbf_var_import_checked := f_sb_var_import_checked;
-     sbf_purity := map (fun p => (sb_enc (fst p), fst (snd p) && fst (snd (snd p)))) f_sb_purity |}.
+     sbf_purity := map (fun p => (sb_enc (fst p), fst (snd p) && fst (snd (snd p)))) f_sb_purity;
+     sbf_ctor_global := map sb_enc f_sb_ctor_global |}.
 
 (* every class whose guard carries a further condition, understood or not *)
 Definition sb_cur_guard_conds : list sb_name := Eval vm_compute in map (fun p => sb_enc (fst p)) f_sb_guard_conds.
@@ -53,6 +54,11 @@ Definition sb_cur_raw_reads : list (sb_name * sb_name) := Eval vm_compute in
 Definition sb_cur_purity_raw : list (sb_name * (bool * bool)) := Eval vm_compute in
   map (fun p => (sb_enc (fst p), (fst (snd p), fst (snd (snd p))))) f_sb_purity.
 Definition sb_cur_console_returns_hidden : bool := Eval vm_compute in f_sb_console_returns_hidden.
+
+(* constructor calls: the model's transcription of DefaultObjectFactory (arguments refused unless the type is the one vararg type) *)
+Definition sb_cur_ctor_shape : bool := Eval vm_compute in
+  f_sb_default_factory_checks_args &&
+  match f_sb_vararg_types with [t] => String.eqb t "DateTime" | _ => false end.
 
 (* the analysis' own sanity: its self-test passed (mutating idioms rejected, the pure idioms of the tree accepted), and
    the READ methods of the container classes it relies on are declared const in their headers (all overloads) *)
@@ -89,7 +95,8 @@ Definition sb_pinned_facts : sb_facts :=
      sbf_call_guard := sbf_call_guard sb_cur_facts; sbf_getfield_checked := sbf_getfield_checked sb_cur_facts;
      sbf_ref_get_checked := sbf_ref_get_checked sb_cur_facts; sbf_indexer_noinit := sbf_indexer_noinit sb_cur_facts;
      sbf_frame_inherit := sbf_frame_inherit sb_cur_facts; sbf_userfunc_unsafe := sbf_userfunc_unsafe sb_cur_facts;
-     sbf_var_import_checked := sbf_var_import_checked sb_cur_facts; sbf_purity := sbf_purity sb_cur_facts |}.
+     sbf_var_import_checked := sbf_var_import_checked sb_cur_facts; sbf_purity := sbf_purity sb_cur_facts;
+     sbf_ctor_global := sbf_ctor_global sb_cur_facts |}.
 
 (* the guard table is exactly the expected one: these and only these constructors refuse to run *)
 Definition sb_expected_guarded : list sb_name :=
@@ -106,14 +113,56 @@ Definition sb_decls_of (fn : string) : list (string * string) :=
 Definition sb_last_is (fn want : string) : bool :=
   match rev (sb_decls_of fn) with (_, a) :: _ => String.eqb a want | [] => false end.
 Definition sb_no_decl (fn : string) : bool := match sb_decls_of fn with [] => true | _ => false end.
-Definition sb_cur_filter_top : bool := Eval vm_compute in
-  (sb_last_is "FilterUtility::GetFilterTargets" "true" && sb_no_decl "FilteredAddTarget" &&
-   sb_no_decl "FilterUtility::EvaluateFilter")%string.
-Definition sb_cur_event_top : bool := Eval vm_compute in
-  (sb_last_is "EventQueue::ProcessEvent" "true" && sb_no_decl "FilterUtility::EvaluateFilter")%string.
-Definition sb_cur_inbox_top : bool := Eval vm_compute in
-  (sb_last_is "EventsFilter::Push" "true" && sb_no_decl "FilterUtility::EvaluateFilter")%string.
-Definition sb_cur_console_top : bool := Eval vm_compute in
-  (sb_last_is "ConsoleHandler::ExecuteScriptHelper" "sandboxed")%string.
-Definition sb_frames_expected : bool :=
-  sb_cur_filter_top && sb_cur_event_top && sb_cur_inbox_top && sb_cur_console_top.
+(* ---- the frame STACK with ScriptFrame::InitializeFrame's inheritance rule, for an ARBITRARY outer stack ----
+   A frame is created by a constructor (Sandboxed = the flag the constructor is handed, false if it takes none), then
+   InitializeFrame: if the thread's stack is not empty, Sandboxed := Sandboxed of the frame on TOP (this OVERWRITES what
+   the constructor was handed); then the frame is pushed.  Only an assignment `frame.Sandboxed = ..` made AFTER construction
+   is independent of what lies on the stack.  [stack]: Sandboxed flags, top first. *)
+Definition sb_new_frame_flag (inherit ctor_arg : bool) (assigned : option bool) (stack : list bool) : bool :=
+  match assigned with
+  | Some b => b
+  | None => if inherit then match stack with top :: _ => top | [] => ctor_arg end else ctor_arg
+  end.
+(* the frames a function declares, in source order, pushed over [stack] (earlier ones are still alive) *)
+Fixpoint sb_push_decls (inherit : bool) (decls : list (bool * option bool)) (stack : list bool) : list bool :=
+  match decls with
+  | [] => stack
+  | d :: r => sb_push_decls inherit r (sb_new_frame_flag inherit (fst d) (snd d) stack :: stack)
+  end.
+(* "true", or the request parameter `sandboxed` of a SANDBOXED console request *)
+Definition sb_flag_text (t : string) : bool := (String.eqb t "true" || String.eqb t "sandboxed")%string.
+Definition sb_site_of (fn : string) : list (bool * option bool) :=
+  map (fun p => (f_sb_frame_ctor_third_is_flag && sb_flag_text (fst (snd (snd p))),
+                 if String.eqb (snd (snd (snd p))) "unset" then None else Some (sb_flag_text (snd (snd (snd p))))))
+      (filter (fun p => String.eqb (fst p) fn) f_sb_frame_decls3).
+Definition sb_cur_site_filter : list (bool * option bool) := Eval vm_compute in sb_site_of "FilterUtility::GetFilterTargets".
+Definition sb_cur_site_event : list (bool * option bool) := Eval vm_compute in sb_site_of "EventQueue::ProcessEvent".
+Definition sb_cur_site_inbox : list (bool * option bool) := Eval vm_compute in sb_site_of "EventsFilter::Push".
+Definition sb_cur_site_console : list (bool * option bool) := Eval vm_compute in sb_site_of "ConsoleHandler::ExecuteScriptHelper".
+(* InitializeFrame copies the flag from the stack top, and every constructor goes through it *)
+Definition sb_cur_inherit : bool := Eval vm_compute in
+  f_sb_frame_inherit && Z.eqb (fst f_sb_frame_ctor_counts) (snd f_sb_frame_ctor_counts).
+(* the helpers called while the user's frame is alive construct no frame of their own *)
+Definition sb_cur_helpers_clean : bool := Eval vm_compute in
+  (sb_no_decl "FilteredAddTarget" && sb_no_decl "FilterUtility::EvaluateFilter")%string.
+(* Sandboxed of the user's frame (the LAST one the site declares) when the entry point is called below [outer] *)
+Definition sb_user_frame_flag (site : list (bool * option bool)) (outer : list bool) : bool :=
+  match site with
+  | [] => false
+  | _ => match sb_push_decls sb_cur_inherit site outer with f :: _ => f | [] => false end
+  end.
+(* ... and of the frame on top of the stack while the user's code runs *)
+Definition sb_user_frame_top (site : list (bool * option bool)) (outer : list bool) : bool :=
+  sb_user_frame_flag site outer && sb_cur_helpers_clean.
+Definition sb_cur_filter_flag := sb_user_frame_flag sb_cur_site_filter.
+Definition sb_cur_event_flag := sb_user_frame_flag sb_cur_site_event.
+Definition sb_cur_inbox_flag := sb_user_frame_flag sb_cur_site_inbox.
+Definition sb_cur_console_flag := sb_user_frame_flag sb_cur_site_console.
+Definition sb_cur_filter_top := sb_user_frame_top sb_cur_site_filter.
+Definition sb_cur_event_top := sb_user_frame_top sb_cur_site_event.
+Definition sb_cur_inbox_top := sb_user_frame_top sb_cur_site_inbox.
+Definition sb_cur_console_top := sb_user_frame_top sb_cur_site_console.
+(* every frame created for a user-supplied filter / console line is sandboxed, and so is the stack top, below [outer] *)
+Definition sb_frames_expected (outer : list bool) : bool :=
+  sb_cur_filter_flag outer && sb_cur_event_flag outer && sb_cur_inbox_flag outer && sb_cur_console_flag outer &&
+  sb_cur_filter_top outer && sb_cur_event_top outer && sb_cur_inbox_top outer && sb_cur_console_top outer.
